@@ -1508,6 +1508,10 @@ def np_column_stack(interp, name, args, kw, st, node):
     # 1-D arrays become columns, then everything is joined along axis 1
     seq = args[0]
     if seq.items is None:
+        sh_ = A.shape_of(seq)
+        if sh_ is not None and len(sh_) == 2 and all(d.known() for d in sh_):
+            # a list of equally long vectors built in a loop, as columns: the matrix whose rows they are, transposed
+            return transpose(interp, A.as_arr(seq), None)
         return fresh_arr(callterm(name, args, kw), None, _L(*args))
     cols = []
     for x in seq.items:
